@@ -45,6 +45,7 @@ class ObjectGenerationData:
         self.auxiliary_types = CodeBlock()
         self.docstring = CodeBlock()
         self.repr_fields = ["byte_size"]
+        self.reached_missing_optional_assigned = False
 
     def add_method(self, method):
         if self.methods:
